@@ -82,7 +82,7 @@ class DimensionBinaryPartition(Partition):
 
             children_list.append(new_node)
 
-        parent.update_children(children_list)
+        parent.update_children(list(children_list))
 
         if newlayer:
             self.node_list.append(children_list)
